@@ -9,12 +9,20 @@ extern "C" size_t __sanitizer_get_current_allocated_bytes() __attribute__((weak)
 using namespace grv;
 
 namespace {
-std::string fontdir;
+std::string fontdir, stagedir;
 std::string file_of(const std::string &kind) {
+    if (kind == "name1") return stagedir + "/facelife_name1.ttf";      // written by stage_files()
     return fontdir + (kind == "compressed" || kind == "badlz4" || kind == "badlz4s" ? "/Awami_compressed_test.ttf" : kind == "awami" ? "/AwamiNastaliq-Regular.ttf" : "/Padauk.ttf");
 }
 bool prepare(TableFace &tf, const std::string &kind) {
-    if (!tf.load(file_of(kind))) return false;
+    if (!tf.load(kind == "name1" ? fontdir + "/Padauk.ttf" : file_of(kind))) return false;
+    if (kind == "name1") {             // a name table of format 1: well formed OpenType, but not a table the library reads
+        std::vector<uint8_t> n = tf.tables[tagof("name")];
+        if (n.size() < 6) return false;
+        n[0] = 0; n[1] = 1;
+        tf.tables[tagof("name")] = n;
+        return true;
+    }
     if (kind == "compressed" || kind == "awami") return true;
     if (kind == "badlz4" || kind == "badlz4s") {      // the compressed Glat / Silf payload is damaged: decompression fails
         std::vector<uint8_t> t = tf.tables[tagof(kind == "badlz4" ? "Glat" : "Silf")];
@@ -51,6 +59,16 @@ bool prepare(TableFace &tf, const std::string &kind) {
     else if (kind == "badsilf") { std::vector<uint8_t> s = tf.tables[tagof("Silf")]; s[1] = 1; s[0] = 0; tf.tables[tagof("Silf")] = s; }   // version 1.0: too old
     return true;
 }
+// kinds that are also served from disk but are not shipped: written next to the trace
+bool stage_files() {
+    TableFace tf;
+    if (!prepare(tf, "name1")) return false;
+    const std::string d = tf.to_sfnt();
+    FILE *o = fopen(file_of("name1").c_str(), "wb"); if (!o) return false;
+    const bool ok = fwrite(d.data(), 1, d.size(), o) == d.size();
+    fclose(o);
+    return ok;
+}
 std::vector<std::string> texts_padauk, texts_awami;
 std::vector<std::string> read_lines(const std::string &p) { std::vector<std::string> r; std::string d = slurp(p), cur; for (char c : d) { if (c == '\n') { if (!cur.empty()) r.push_back(cur); cur.clear(); } else cur += c; } if (!cur.empty()) r.push_back(cur); return r; }
 uint64_t fnv(const std::string &s) { uint64_t h = 1469598103934665603ULL; for (unsigned char c : s) { h ^= c; h *= 1099511628211ULL; } return h; }
@@ -82,6 +100,8 @@ GRV_CMD(facelife) {
     FILE *f = fopen(argv[0], "r"); if (!f) { perror(argv[0]); return 2; }
     FILE *tr = fopen(argv[1], "w"); if (!tr) { perror(argv[1]); return 2; }
     fontdir = argv[2];
+    { std::string t = argv[1]; size_t sl = t.rfind('/'); stagedir = sl == std::string::npos ? "." : t.substr(0, sl); }
+    if (!stage_files()) { fprintf(stderr, "cannot stage font files in %s\n", stagedir.c_str()); return 2; }
     const std::string datadir = argc > 3 ? argv[3] : ".";
     texts_padauk = read_lines(datadir + "/texts_padauk.txt"); texts_awami = read_lines(datadir + "/texts_awami.txt");
     if (texts_padauk.size() < 8 || texts_awami.size() < 8) { fprintf(stderr, "text files missing in %s\n", datadir.c_str()); return 2; }
@@ -95,7 +115,10 @@ GRV_CMD(facelife) {
         TableFace *tf = new TableFace();
         if (!prepare(*tf, kind)) { fprintf(stderr, "cannot prepare font kind %s\n", kind.c_str()); return 2; }
         tf->events.reserve(4096); tf->bufs.reserve(512);
-        fprintf(tr, "{\"e\":\"Reset\",\"kind\":\"%s\"}\n", kind.c_str());
+        // a face made without a release_table callback (make_face argument 16..23) never hands anything back
+        const bool norel = !(*v)["hist"].a.empty() && (*(*v)["hist"].a[0])["op"].s == "make_face" && (*(*v)["hist"].a[0])["arg"].num() >= 16;
+        tf->noRelease = norel;
+        fprintf(tr, "{\"e\":\"Reset\",\"kind\":\"%s\",\"nr\":%d}\n", kind.c_str(), norel ? 1 : 0);
         size_t cursor = 0;
         auto flush_events = [&]() {
             for (; cursor < tf->events.size(); ++cursor) {
@@ -114,14 +137,21 @@ GRV_CMD(facelife) {
             ++calls;
             fprintf(tr, "{\"e\":\"Call\",\"op\":\"%s\",\"arg\":%ld}\n", op.c_str(), arg);
             int ok = 1; std::string h, key;
-            if (op == "make_face") { face = arg >= 8 ? gr_make_file_face(file_of(kind).c_str(), unsigned(arg - 8)) : tf->make(unsigned(arg)); ok = face != 0; }
+            if (op == "make_face") { face = arg >= 8 && arg < 16 ? gr_make_file_face(file_of(kind).c_str(), unsigned(arg - 8)) : tf->make(unsigned(arg & 7)); ok = face != 0; }
             else if (op == "label") {
                 // hidden features are not counted by gr_face_n_fref but can be found by their id
                 gr_uint32 firstId = 0;
                 { auto it = tf->tables.find(tagof("Feat")); if (it != tf->tables.end() && it->second.size() >= 16) firstId = be16(&it->second[0]) >= 2 ? ((gr_uint32(be16(&it->second[12])) << 16) | be16(&it->second[14])) : be16(&it->second[12]); }
                 const gr_feature_ref *r = gr_face_n_fref(face) ? gr_face_fref(face, 0) : gr_face_find_fref(face, firstId);
-                if (r) { gr_uint16 lang = 0x409; gr_uint32 len = 0; void *p = gr_fref_label(r, &lang, gr_utf8, &len); if (p) gr_label_destroy(p);
-                         if (gr_fref_n_values(r)) { lang = 0x409; p = gr_fref_value_label(r, 0, &lang, gr_utf16, &len); if (p) gr_label_destroy(p); } }
+                // what the face says about its first feature is part of "the features reported" (C10) and of the results (C08)
+                std::string rep = r ? "f" + std::to_string(gr_fref_id(r)) : "nofeature";
+                if (r) { gr_uint16 lang = 0x409; gr_uint32 len = 0; void *p = gr_fref_label(r, &lang, gr_utf8, &len);
+                         rep += p ? " L" + std::to_string(lang) + ":" + std::to_string(len) + ":" + std::string((const char *)p, len) : " nolabel";
+                         if (p) gr_label_destroy(p);
+                         if (gr_fref_n_values(r)) { lang = 0x409; len = 0; p = gr_fref_value_label(r, 0, &lang, gr_utf16, &len);
+                             rep += p ? " V" + std::to_string(lang) + ":" + std::to_string(len) + ":" : " novlabel";
+                             if (p) { for (gr_uint32 q = 0; q < len; ++q) rep += std::to_string(((const gr_uint16 *)p)[q]) + ","; gr_label_destroy(p); } } }
+                h = std::to_string(fnv(rep)); key = "label";
             }
             else if (op == "face_query") {
                 volatile unsigned sink = gr_face_n_glyphs(face) + gr_face_n_fref(face) + gr_face_n_languages(face) + gr_face_is_char_supported(face, 0x1000, 0) + gr_face_is_char_supported(face, 0x10FFFF, 0);
